@@ -25,6 +25,9 @@ def instrOp : Instr → String × List Nat
   | .jump t => ("Jump", [t]) | .jif t => ("JumpIfFalse", [t]) | .jifnp t => ("JumpIfFalseNoPop", [t])
   | .getGlobal i => ("GetGlobal", [i]) | .setGlobal i => ("SetGlobal", [i]) | .defGlobal i => ("DefineGlobal", [i])
   | .dup => ("Dup", [])
+  | .call n => ("Call", [n]) | .retv => ("ReturnValue", []) | .ret => ("Return", [])
+  | .getLocal i => ("GetLocal", [i]) | .setLocal i => ("SetLocal", [i]) | .defLocal i => ("DefineLocal", [i])
+  | .closure c n => ("Closure", [c, n]) | .currClosure => ("CurrClosure", [])
 
 def encodeI (i : Instr) : List Nat :=
   let (n, ops) := instrOp i
@@ -37,7 +40,8 @@ def encode (is : List Instr) : List Nat := (is.map encodeI).flatten
 /-- the encoded length of every instruction is its `size` (checked over the generated tables) -/
 theorem encodeI_length_shapes :
     ([Instr.const 300, .pop, .op .add, .op .shr, .tru, .fls, .null, .minus, .bang, .bnot, .jump 70000, .jif 5, .jifnp 65535,
-      .getGlobal 1, .setGlobal 2, .defGlobal 3, .dup].all fun i => (encodeI i).length == i.size) = true := by decide
+      .getGlobal 1, .setGlobal 2, .defGlobal 3, .dup, .call 3, .retv, .ret, .getLocal 200, .setLocal 1, .defLocal 0,
+      .closure 300 0, .currClosure].all fun i => (encodeI i).length == i.size) = true := by decide
 
 /-! ## the fragment inside the AST -/
 
